@@ -284,7 +284,63 @@ def gen_pitch(out):
             "clock_opn2": clk2, "clock_opna": clka}
 
 
-GENERATORS = [gen_tables, gen_wopn, gen_pitch]
+def enum_body(anchor, text, name):
+    m = find(anchor, text, r"enum %s\s*\{(.*?)\}" % name)
+    items = []
+    cur = -1
+    for part in strip_comments(m.group(1)).split(","):
+        part = part.strip()
+        if not part:
+            continue
+        if "=" in part:
+            k, v = [x.strip() for x in part.split("=", 1)]
+            try:
+                cur = int(v, 0)
+            except ValueError:
+                # alias of an earlier enumerator (or an expression we do not evaluate): look it up
+                prev = dict(items)
+                if v in prev:
+                    cur = prev[v]
+                elif "|" in v:
+                    cur = 0
+                    for t in v.split("|"):
+                        cur |= prev.get(t.strip(), int(t.strip(), 0) if t.strip().isdigit() else 0)
+                else:
+                    raise AnchorError(anchor, "cannot evaluate %s" % part)
+        else:
+            k = part
+            cur += 1
+        items.append((k, cur))
+    return items
+
+
+def gen_enums(out):
+    h = src("include/opnmidi.h")
+    st = enum_body("enum_sample_type", h, "OPNMIDI_SampleType")
+    emu = enum_body("enum_emulator", h, "Opn2_Emulator")
+    vm = enum_body("enum_volume_models", h, "OPNMIDI_VolumeModels")
+    ca = enum_body("enum_chan_alloc", h, "OPNMIDI_ChannelAlloc")
+    protos = re.findall(r"extern OPNMIDI_DECLSPEC\s+([^;]*?)\b(opn2_\w+)\s*\(([^;]*?)\)\s*;", strip_comments(h), re.S)
+    names = []
+    for ret, name, args in protos:
+        if name not in names:
+            names.append(name)
+    if len(names) < 60:
+        raise AnchorError("api_surface", "only %d exported prototypes found" % len(names))
+    L = ["-- GENERATED by tools/translate.py from /repo (do not edit)", "namespace Opn.Gen",
+         "/-- OPNMIDI_SampleType enumerators in id order (the `OPNMIDI_SampleType_` prefix removed) -/",
+         "def sampleTypeNames : List String := [" + ", ".join('"%s"' % k.replace("OPNMIDI_SampleType_", "") for k, v in sorted(st, key=lambda x: x[1]) if not k.endswith("Count")) + "]",
+         "def emulatorIds : List (String × Int) := [" + ", ".join('("%s", %d)' % (k, v) for k, v in emu) + "]",
+         "def volumeModelIds : List (String × Int) := [" + ", ".join('("%s", %d)' % (k, v) for k, v in vm) + "]",
+         "def chanAllocIds : List (String × Int) := [" + ", ".join('("%s", %d)' % (k, v) for k, v in ca) + "]",
+         "/-- every function exported by include/opnmidi.h -/",
+         "def apiSurface : List String := [" + ", ".join('"%s"' % n for n in names) + "]",
+         "end Opn.Gen"]
+    out["Enums.lean"] = "\n".join(L) + "\n"
+    return {"enum_sample_type": len(st), "enum_emulator": len(emu), "enum_volume_models": len(vm), "api_surface": len(names)}
+
+
+GENERATORS = [gen_tables, gen_wopn, gen_pitch, gen_enums]
 
 
 def translate(write=True):
